@@ -409,25 +409,22 @@ def emitSymbol (c : Ctx) (name : Str) (emitFilename initFilepath : Path) : M Uni
       let imp : ImportFrom := { module := some module, names := [(name, none)], level := 0 }
       writeFile initFilepath (fun _ => ⟨[.other, .from_ imp, .all_ [name]], [imp]⟩)
 
-/-- `emit_file_on_hierarchy(name_orig_ir, …)`; `irName` is `ir.get("name")` (`none` in a dry run: the IR is then the
-    empty `{"params": {}, "returns": {}}`) -/
-def emitFileOnHierarchy (c : Ctx) (moduleName : Str) (key : Str) (orig : Path) (irName : Option Str) : M Unit := do
-  let (modName, _, name0) := rpartition key ['.']
-  if orig.isEmpty then raise .assertion
-  let moduleNameAsPath := replace moduleName ['.'] ['/']
-  let rel := if startsWith orig (moduleNameAsPath ++ ['/']) then orig.drop (moduleNameAsPath.length + 1) else orig
-  let name := match irName with
-    | some n => if name0.isEmpty then n else name0
-    | none => name0
-  let outputDirIsModule := endsWith (replace c.outputDirectory ['/'] ['.']) c.newModuleName
-  let modPath := if outputDirIsModule then c.outputDirectory
+/-- `output_dir_is_module` -/
+def outputDirIsModule (c : Ctx) : Bool := endsWith (replace c.outputDirectory ['/'] ['.']) c.newModuleName
+
+/-- first half of `emit_file_on_hierarchy`: `mod_path`, its creation, the `touch` of `dirname(mod_path)/__init__.py` -/
+def efhPrepare (c : Ctx) (modName : Str) : M Unit := do
+  let modPath := if outputDirIsModule c then c.outputDirectory
                  else joinL c.outputDirectory [c.newModuleName, replace modName ['.'] ['/']]
   if !(← isdir modPath) then
     if c.dryRun then print (msg MKDIR modPath) else makedirs modPath
   let initFilepath := join2 (dirname modPath) INIT
   if c.dryRun then print (msg TOUCH initFilepath) else openA initFilepath
-  -- filesystem_layout == "as_input"
-  let base := if outputDirIsModule then c.outputDirectory else join2 c.outputDirectory c.newModuleName
+
+/-- second half of `emit_file_on_hierarchy` (`filesystem_layout == "as_input"`): `emit_filename`, `init_filepath`,
+    the look into an existing target file, `_emit_symbol` -/
+def efhEmit (c : Ctx) (name : Str) (rel : Path) (irName : Option Str) : M Unit := do
+  let base := if outputDirIsModule c then c.outputDirectory else join2 c.outputDirectory c.newModuleName
   let emitFilename := join2 base rel
   let initFilepath2 := join2 base (join2 (dirname rel) INIT)
   let isfileEmit ← isfile emitFilename
@@ -444,21 +441,40 @@ def emitFileOnHierarchy (c : Ctx) (moduleName : Str) (key : Str) (orig : Path) (
   if !symbolInFile && irName.isSome then
     emitSymbol c name emitFilename initFilepath2
 
+/-- `name` after `if not name and ir.get("name") is not None: name = ir.get("name")` -/
+def efhName (name0 : Str) (irName : Option Str) : Str :=
+  match irName with
+  | some n => if name0.isEmpty then n else name0
+  | none => name0
+
+/-- `relative_filename_path` -/
+def efhRel (moduleName : Str) (orig : Path) : Path :=
+  let moduleNameAsPath := replace moduleName ['.'] ['/']
+  if startsWith orig (moduleNameAsPath ++ ['/']) then orig.drop (moduleNameAsPath.length + 1) else orig
+
+/-- `emit_file_on_hierarchy(name_orig_ir, …)`; `irName` is `ir.get("name")` (`none` in a dry run: the IR is then the
+    empty `{"params": {}, "returns": {}}`) -/
+def emitFileOnHierarchy (c : Ctx) (moduleName : Str) (key : Str) (orig : Path) (irName : Option Str) : M Unit := do
+  if orig.isEmpty then raise .assertion
+  efhPrepare c (rpartition key ['.']).1
+  efhEmit c (efhName (rpartition key ['.']).2.2 irName) (efhRel moduleName orig) irName
+
 /-- `emit_files_from_module_and_return_imports` (always returns `[]`: `emit_file_on_hierarchy` returns `None`) -/
 def emitFiles (env : Env) (c : Ctx) (moduleName : Str) (moduleRootDir : Path) : M Unit := do
   let contents ← getModuleContents env moduleRootDir
   forEach contents (fun (kv : Content) => do
     let key := if startsWith kv.1 moduleName then kv.1.drop (moduleName.length + 1) else kv.1
-    let orig ← (do
-      if (← isfile moduleRootDir) then pure (join2 c.outputDirectory (basename moduleRootDir))
+    let fromFile ← isfile moduleRootDir
+    let orig :=
+      if fromFile then join2 c.outputDirectory (basename moduleRootDir)
       else
         -- relative_filename(node.__file__): unchanged for a file outside the interpreter's library directories
         let filename := kv.2.1
-        pure (if startsWith filename moduleName then filename.drop (moduleName.length + 1) else filename) : M Path)
+        if startsWith filename moduleName then filename.drop (moduleName.length + 1) else filename
     -- dry run: the IR is the empty dict; otherwise the parser's result (it carries the node's name)
     let irName := if c.dryRun then none else some kv.2.2
     note { moduleName := moduleName, key := key, orig := orig, file := kv.2.1, node := kv.2.2,
-           fromFile := (← isfile moduleRootDir), outputDirectory := c.outputDirectory }
+           fromFile := fromFile, outputDirectory := c.outputDirectory }
     emitFileOnHierarchy c moduleName key orig irName)
 
 /-! ## `exmod_single_folder` -/
